@@ -11,6 +11,7 @@
 //!   round 6: sab=<d|i><index><x|r|t>.<..> (store files deleted / replaced by a directory / truncated on disk after the
 //!               load, before any access), retry=<n> (the same save tried n times before), tsp=3|4 (target spelled through a
 //!               symlinked parent / relative to the parent), stores=4|5 (size classes up to 3 MiB)
+//!   gn.<hexname>: `Layer::entry(name).or_insert_with(..)` then `insert_glyph` of the same name (C09 histories)
 //!   edits: gi.<n> gr.<n> lk nl.<n> di.<hexkey>.<c> dr.<hexkey> ii.<hexkey>.<c> ir.<hexkey> dg.<hexkey>
 use crate::common::*;
 use crate::fsfam::*;
@@ -112,6 +113,15 @@ fn apply_edit(f: &mut Font, tr: &mut Track, op: &str) {
     let _ = guarded(|| match p[0] {
         "gi" => {
             f.default_layer_mut().insert_glyph(Glyph::new(&unhexs(p[1])));
+        }
+        "gn" => {
+            // get-or-create through the raw map entry, then the usual "replace the placeholder" (C09 histories only)
+            let n = unhexs(p[1]);
+            let name = norad::Name::new(&n).unwrap();
+            f.default_layer_mut().entry(name).or_insert_with(|| Glyph::new(&n));
+            let mut g = Glyph::new(&n);
+            g.width = 77.0;
+            f.default_layer_mut().insert_glyph(g);
         }
         "gr" => {
             f.default_layer_mut().remove_glyph(&unhexs(p[1]));
@@ -668,6 +678,11 @@ pub fn observe_ext(toks: &[&str], scratch: &Path, fresh: bool) -> String {
             extra.push_str(&format!(" RESAVE={}", res));
             rm_rf(&rs);
         }
+    }
+    if fresh {
+        // C09 only: glyphs the containers report (`iter()`) that have no file name - a successful save cannot write them
+        let nofile: usize = font.layers.iter().map(|l| l.iter().filter(|g| l.get_path(g.name()).is_none()).count()).sum();
+        extra.push_str(&format!(" NOFILE={}", nofile));
     }
     rm_rf(&sb);
     if load {
